@@ -46,6 +46,11 @@ AQ = [None, None, "qint8", "qfloat8"]
 UP = ["random", "random", "onehot", "transposed", "expanded", "zeros", "const_scaled"]
 
 
+DIRECTED = [(torch.float32, "qint8", "qint8", 2, 1500, 8), (torch.float32, "qfloat8", "qfloat8", 3, 3000, 16),
+            (torch.float16, "qint4", "qint8", 4, 2500, 8), (torch.float32, "qint8", "qfloat8", 2, 2500, 3),
+            (torch.float32, "qint2", "qint8", 3, 1500, 16), (torch.float16, "qint8", "qint8", 2, 3000, 8)]
+
+
 def upstream(r, kind, shape, wd):
     if kind == "random":
         return torch.from_numpy(r.standard_normal(shape)).to(wd)
@@ -186,7 +191,7 @@ def run(ctx):
             wd = DT[int(rng.integers(3))]
             wq = WQ[int(rng.integers(len(WQ)))]
             aq = AQ[int(rng.integers(len(AQ)))]
-            conv = bool(rng.random() < 0.35)
+            conv = bool(rng.random() < 0.35) and i >= len(DIRECTED)
             bias = bool(rng.random() < 0.6)
             frozen = bool(rng.random() < 0.3)
             upk = UP[int(rng.integers(len(UP)))]
@@ -212,6 +217,12 @@ def run(ctx):
                     xshape = {2: (rows,), 3: (2, rows // 2) if rows % 2 == 0 else (1, rows),
                               4: (2, 1, rows // 2) if rows % 2 == 0 else (1, 1, rows)}[rank] + (fin,)
                     n_upd = min(n_upd, 1)
+                if i < len(DIRECTED):
+                    # the first cases are fixed: many rows with a large residue beyond 1024, quantized activations, trainable
+                    # weights, every row contributing, float32 / float16 (tight bounds) - not left to the draw
+                    wd, wq, aq, rank, rows, fin = DIRECTED[i]
+                    frozen, upk, n_upd = False, "random", min(n_upd, 1)
+                    xshape = {2: (rows,), 3: (2, rows // 2), 4: (2, 1, rows // 2)}[rank] + (fin,)
                 if gen.int8pack_crash_class(wd, wq, fin, quantized_activations=aq is not None):
                     wq = "qfloat8"
             desc = dict(case=i, dtype=str(wd), weights=wq, activations=aq, conv=conv, bias=bias, frozen=frozen, upstream=upk,
